@@ -177,6 +177,8 @@ LINE_KINDS = [
     ("inner-block", ["\tif (p0)\n", "\t{\n", "\t\tp0 = 2;\n", "\t}\n"]),
     ("conditional-section", ["#ifdef X\n", "\tp0 = 3;\n", "#endif\n"]),
     ("spliced-statement", ["\tp0 = 1 + \\\n", "\t\t2;\n"]),
+    ("block-comment-with-page-breaks", ["\t/* a \f b \v c \x85 d \u2028 e */\n"]),
+    ("string-with-page-breaks", ["\tp0 = sizeof(\"a \f b \x1c c\");\n"]),
     ("string-spliced", ["\tp0 = sizeof(\"a\\\n", "b\");\n"]),
 ]
 
@@ -267,6 +269,19 @@ def run(res, tier, br, model_ok=True, search=False):
                 body[place:place] = ls
                 src = "int\tf(int p0)\n{\n" + "".join(body) + "\treturn (p0);\n}\n"
                 check("f.c", src, "TOO_MANY_LINES", src.count("\n"), total > 25, "lines-kind-" + kname, total, 25)
+    # 25 lines, wherever the function stands (a header too), whatever follows its closing brace on the line, with and
+    # without blocks nested in the body (their lines count as well)
+    closers = ["}\n", "} \n", "}\t\n", "} // c\n", "}\t/* c */\n", "}\n\n", "}"]
+    for ext, head in ((".c", "int\tf(int p0)\n"), (".h", "static inline int\tf(int p0)\n"), (".h", "int\tf(int p0)\n")):
+        for nested in (False, True):
+            for total in (25, 26):
+                for cl in (closers if big or (nested and ext == ".h") else rng.sample(closers, 2)):
+                    inner = (["\twhile (p0 < 10)\n", "\t{\n", "\t\tp0++;\n", "\t\tif (p0 == 3)\n", "\t\t{\n", "\t\t\tp0 += 2;\n", "\t\t}\n", "\t}\n"]
+                             if nested else [])
+                    body = inner + ["\tp0 = %d;\n" % i for i in range(total - len(inner) - 1)] + ["\treturn (p0);\n"]
+                    src = head + "{\n" + "".join(body) + cl
+                    check("f" + ext, src, "TOO_MANY_LINES", 2 + len(body) + 1, total > 25,
+                          "lines-closer-" + ("nested-" if nested else "") + ext[1:] + "-" + repr(cl), total, 25)
     # 4 parameters (plain, pointers, function pointer)
     for n in range(1, 11):
         ps = ", ".join(f"int a{i}" for i in range(n))
